@@ -290,7 +290,11 @@ class Interp:
                 lens[ins.name] = {"decl": ins}
                 ref_v = self._referenced_value(ins.name, obj)
                 if ref_v is None:
-                    raise Unsupported("length of an absent value")
+                    # the item that refers to this length is optional and absent: the constructor derives a length
+                    # of 0 for it (a required item left None never gets this far - the constructor refuses it)
+                    if not self._referrer_optional(ins.name, obj):
+                        raise Unsupported("length of an absent value")
+                    ref_v = ()
                 if ins.optional and st["missing"]:
                     continue
                 n = len(ref_v) - ins.offset
@@ -351,6 +355,19 @@ class Interp:
                 # optional fields are per chunk: a break starts a new chunk with its own optional tail
                 st["missing"] = False
                 w.add_byte(0xFF)
+
+    def _referrer_optional(self, length_name, obj):
+        body, _c, _i = self.body_of(obj.cls)
+        found = []
+
+        def visit(b):
+            for ins in b:
+                if ins.kind in ("field", "array") and ins.length == length_name and ins.name is not None:
+                    found.append(ins)
+                elif ins.kind == "chunked":
+                    visit(ins.body)
+        visit(body)
+        return bool(found) and bool(found[0].optional)
 
     def _referenced_value(self, length_name, obj):
         body, _c, _i = self.body_of(obj.cls)
